@@ -9,7 +9,13 @@ prop("C06", "exploration",
      "verification callback inside setup and fails if that fails, as hopclient.setupTargetClient does), a target behaviour per "
      "forwarded intent (scripted: confirm / deny(reason) / close / garbage+close / close mid-message; or the real "
      "StartTargetInstance with recording checkIntent/addAuthGrant stubs that accept / refuse / fail to store), and optionally a "
-     "malformed message after the last request. The real StartPrincipalInstance runs over buffered in-memory connections inside a synctest "
+     "malformed message after the last request. How the delegate puts the requests on the wire is drawn too: strictly request / "
+     "answer / request (as the project's own delegate does), or SEND-AHEAD - some or all requests are written right behind their "
+     "predecessor before the outstanding answers are read (groups of 2..6) - and the byte stream may pause (everybody else runs until "
+     "blocked) between two requests sent ahead or inside a request after a drawn number of bytes, so that what arrives coalesced varies "
+     "from 'everything at once' over 'a request plus the head of the next' to 'one at a time'; inside a group the request in flight is "
+     "the one the principal is working on (its first Read on the delegate connection after a Write starts the next one) and the j-th "
+     "answer read belongs to the j-th request of the group. The real StartPrincipalInstance runs over buffered in-memory connections inside a synctest "
      "bubble; request bytes come from an encoder written from the wire layout, answers are parsed by the harness. Oracle per "
      "request: no byte is written on a target connection without an earlier accepting callback invocation for that request, none "
      "at all if the callback refused; forwarded bytes decode to the approved and to the requested intent field for field; the "
@@ -28,6 +34,12 @@ prop("C06", "exploration",
       "requests are well formed and within the framing limits the encoder supports (names <= 252, strings <= 255, times >= 0); "
       "grant types 3 and 4 are excluded because their encoder is unimplemented (panics) - see C11/C18",
       "refusal reasons <= 200 bytes so that the principal's prefixed denial fits the one-byte string length (longer ones hit the C18 WriteString wrap)",
+      "a delegate may write further complete requests before it has read the outstanding answers: the delegate connection is a reliable "
+      "byte stream, the statement quantifies over all sequences of requests on one connection and neither it nor authgrant_spec.md ties "
+      "writing a request to having read the previous answer (the principal 'keeps the AGT open in case the Delegate would like to send "
+      "more Intent Requests'); every completely written request is a request and is owed exactly one answer, answers correspond to "
+      "requests by order (they carry no tag); the principal handles one request at a time (as read in principal.go: it reads the "
+      "delegate connection only to fetch a request and writes on it only to answer), which is what the attribution inside a group uses",
       "a target that misbehaves always ends by answering or closing (a target that stalls forever cannot be answered for)",
       "the target-setup model is hopclient.setupTargetClient as read in the source; a failed setup returns no connection"],
      [dict(name="histories", pkg="authgrants", run="^TestVerifC06Histories$", shards=dict(quick=12, thorough=16), thorough_scale=25),
